@@ -35,7 +35,7 @@ UNIT = dict(
         type_map={'string': 'vstr', 'istream': 'struct istr', 'ostream': 'vstr', 'vector<string>': 'struct svec'},
         methods={'size': 'vstr_size', 'length': 'vstr_length', 'empty': 'vstr_empty', 'find_first_not_of': 'vstr_find_first_not_of', 'find_last_not_of': 'vstr_find_last_not_of', 'erase': 'vstr_erase_from',
                  'find_first_of': 'vstr_find_first_of_char', 'substr': 'vstr_substr_from'},
-        text_subs=[(r'vstr::npos', 'VSTR_NPOS'), (r'vstr::size_type', 'size_t'), (r'\(\*str\)\[check\+1\]', 'vstr_at(str, check+1)')],
+        text_subs=[(r'vstr::npos', 'VSTR_NPOS'), (r'vstr::size_type', 'size_t'), (r'\(\*str\)\[([^\]]+)\]', r'vstr_at(str, \1)')],
     ),
     functions=[
         dict(file=FR_CPP, name='FileReader::trim', cname='FileReader_trim', self=None),
@@ -58,5 +58,5 @@ def R(id, entry, enforce=None, replace=(), loops=False, props=('C19', 'C20'), **
     d.update(kw)
     UNIT['runs'].append(d)
 
-R('roundtrip1', 'h_roundtrip1', None, unwind=14, defines=['VSTR_CAP=12', 'FLD_MAX=5'], cost=60, timeout=1200, bounded='one field of up to 5 characters (full character set)')
+R('roundtrip1', 'h_roundtrip1', None, unwind=16, defines=['VSTR_CAP=14', 'FLD_MAX=6'], cost=120, timeout=1500, bounded='one field of up to 6 characters (full character set)')
 R('roundtrip2', 'h_roundtrip2', None, unwind=20, defines=['VSTR_CAP=18', 'FLD_MAX=3'], cost=120, timeout=1800, bounded='two fields of up to 3 characters each (full character set)')
